@@ -128,6 +128,15 @@ def _build(cfg):
     u = PINN(mlp=Net(jnp.array([1.0])), slice_solution=jnp.s_[:], eq_type=eqt, input_transform=lambda i, p: i,
              output_transform=lambda i, o, p: o)
     rfun, rexact0 = _landscape(kind, cfg.get("land", "mono"))
+    # pdep: the landscape depends on the TRAINED network parameter w: w * mono + (1 - w) * anti; the driver's optimizer makes w alternate
+    # between 0 and 1, so the ranking of the candidates flips at every iteration: the refinement must rank with the parameters AFTER the
+    # gradient step of its iteration
+    pdep = bool(cfg.get("pdep")) and not cfg.get("sys") and not cfg.get("het")
+    if pdep:
+        f_m, e_m = _landscape(kind, "mono")
+        f_a, e_a = _landscape(kind, "anti")
+        _W = [1.0]
+        rexact0 = lambda *a: _W[0] * e_m(*a) + (1.0 - _W[0]) * e_a(*a)
     vec = cfg.get("ret", "scalar") == "vec"
     vec2 = cfg.get("ret", "scalar") == "vec2"      # two components of opposite sign: |r|^2 = f^2 + (0.1 - 1.1 f)^2, sum = 0.1 (1 - f)
     if vec2:
@@ -145,22 +154,31 @@ def _build(cfg):
     # raw value is a constant): the residual the refinement must rank is the one of `dynamic_loss.evaluate`, maps applied
     het = bool(cfg.get("het")) and not cfg.get("sys")
     hetmap = None
+    if pdep:
+        _rf = rfun
+        rfun = None
+    def L(params, *pt):
+        if not pdep:
+            return rfun(*pt)
+        w = params.nn_params.w[0]
+        return w * f_m(*pt) + (1.0 - w) * f_a(*pt)
+
     if kind == "ode":
         class Eq(ODE):
             def equation(self, t, u, params):
-                return shape((params.eq_params["a"] if het else rfun(jnp.squeeze(t))) + 0.0 * jnp.sum(u(t, params)))
+                return shape((params.eq_params["a"] if het else L(params, jnp.squeeze(t))) + 0.0 * jnp.sum(u(t, params)))
         if het:
             hetmap = {"a": lambda t, u, p: rfun(jnp.squeeze(t))}
     elif kind == "statio":
         class Eq(PDEStatio):
             def equation(self, x, u, params):
-                return shape((params.eq_params["a"] if het else rfun(x)) + 0.0 * jnp.sum(u(x, params)))
+                return shape((params.eq_params["a"] if het else L(params, x)) + 0.0 * jnp.sum(u(x, params)))
         if het:
             hetmap = {"a": lambda x, u, p: rfun(x)}
     else:
         class Eq(PDENonStatio):
             def equation(self, t, x, u, params):
-                return shape((params.eq_params["a"] if het else rfun(jnp.squeeze(t), x)) + 0.0 * jnp.sum(u(t, x, params)))
+                return shape((params.eq_params["a"] if het else L(params, jnp.squeeze(t), x)) + 0.0 * jnp.sum(u(t, x, params)))
         if het:
             hetmap = {"a": lambda t, x, u, p: rfun(jnp.squeeze(t), x)}
     if het:
@@ -214,6 +232,8 @@ def _build(cfg):
             loss = jinns.loss.LossPDEStatio(u=u, dynamic_loss=Eq(Tmax=1), params=params)
         else:
             loss = jinns.loss.LossPDENonStatio(u=u, dynamic_loss=Eq(Tmax=1), params=params)
+    if pdep:
+        rexact.set_w = lambda w: _W.__setitem__(0, float(w))
     return g, loss, params, axes, rexact, bnds
 
 
@@ -355,8 +375,15 @@ def _run_solve(cfg, g, loss, params, axes, rexact, bnds):
             reg.add(r)
         regs.append(reg)
     _verif.drain()
+    pdep = hasattr(rexact, "set_w")
+    optimizer = optax.sgd(0.0)
+    if pdep:
+        import jax.numpy as jnp
+        # w: 1 -> 0 -> 1 -> ... (the update of iteration i is -1 for even i, +1 for odd i; gradients are ignored)
+        optimizer = optax.GradientTransformation(lambda p: jnp.array(0), lambda gr, st, p=None: (
+            jax.tree.map(lambda x: jnp.where(st % 2 == 0, -1.0, 1.0) * jnp.ones_like(x), gr), st + 1))
     try:
-        out = jinns.solve(n_iter=cfg["iters"], init_params=params, data=g, loss=loss, optimizer=optax.sgd(0.0), verbose=False)
+        out = jinns.solve(n_iter=cfg["iters"], init_params=params, data=g, loss=loss, optimizer=optimizer, verbose=False)
         jax.effects_barrier()
     except Exception as ex:  # noqa
         tr["codeexc"] = f"{type(ex).__name__}: {str(ex)[:160]}"
@@ -387,6 +414,8 @@ def _run_solve(cfg, g, loss, params, axes, rexact, bnds):
             return tr
         it = evs[k]
         k += 1
+        if pdep:
+            rexact.set_w(0.0 if int(it["i"]) % 2 == 0 else 1.0)        # the parameters AFTER the gradient step of iteration i
         draw = []
         for a, ax in enumerate(axes):
             arr, p, cur = _ev_axis(d, ax["name"])
@@ -427,6 +456,8 @@ def _run_solve(cfg, g, loss, params, axes, rexact, bnds):
             tr["retOK"] = False
     if len(tr["ev"]) != cfg["iters"]:
         tr["exc"] = f"{len(tr['ev'])} iterations recorded, {cfg['iters']} requested"
+    if pdep and abs(float(np.asarray(out[0].nn_params.w)[0]) - (1.0 if cfg["iters"] % 2 == 0 else 0.0)) > 1e-6:
+        tr["exc"] = "driver: the scripted parameter sequence was not followed"
     if any(r.dup for r in regs):
         tr["skipped"] = "duplicate floats"
     return tr
